@@ -437,8 +437,18 @@ fn gen_case(rng: &mut Rng) -> (String, String) {
             )
         }
         11 => {
-            let (l, lo, len) = gen_range(rng, None);
-            let (mut r, ro, _) = gen_range(rng, Some(len));
+            let (mut l, mut lo, mut len) = gen_range(rng, None);
+            let (mut r, mut ro, _) = gen_range(rng, Some(len));
+            if rng.chance(1, 3) {
+                // byte-/word-aligned operands of whole-byte length: the shapes memcmp-style
+                // fast paths are written for
+                lo = *rng.pick(&[0usize, 8, 16, 64, 128]);
+                ro = *rng.pick(&[0usize, 8, 24, 64, 128]);
+                len = 8 * rng.usize(26);
+                let (xl, xr) = (rng.usize(2), rng.usize(2));
+                l = rng.bytes((lo + len) / 8 + xl);
+                r = rng.bytes((ro + len) / 8 + xr);
+            }
             if rng.chance(2, 3) {
                 // make equal content, maybe flip one bit
                 for i in 0..len {
@@ -446,7 +456,14 @@ fn gen_case(rng: &mut Rng) -> (String, String) {
                     r[(ro + i) / 8] = (r[(ro + i) / 8] & !(1 << ((ro + i) % 8))) | (b << ((ro + i) % 8));
                 }
                 if len > 0 && rng.bool() {
-                    let i = ro + rng.usize(len);
+                    // flip one bit, biased to the two ends of the range
+                    let k = match rng.below(4) {
+                        0 => 0,
+                        1 => len - 1,
+                        2 => len - 1 - rng.usize(len.min(8)),
+                        _ => rng.usize(len),
+                    };
+                    let i = ro + k;
                     r[i / 8] ^= 1 << (i % 8);
                 }
             }
